@@ -1074,3 +1074,66 @@ def r_azimuth_atan2(cx):
                       "spanning more than 90 degrees of arc) the angle is off by 180 degrees" % fn.rsplit("::", 1)[-1],
                       cx.where(t["span"]))
     cx.count("R-AZIMUTH-ATAN2", "azimuths", n)
+
+
+@rule("R-NONCONVERGENCE-FIRST", ["C10", "C06"])
+def r_nonconvergence_first(cx):
+    """The geodesic routines flag a solution that did not converge by an iteration count above 990 in element 3 of their
+    result. The operator looks at that flag before it writes anything but NaN: every value written in the per-tuple loops
+    of inner_op::geodesic (and every count) is dominated by the converged side of the `[3] > 990` test on the result of
+    that iteration - in the `reversible` format as well."""
+    import guards
+    import pertuple
+    n = 0
+    for fn in ("inner_op::geodesic::fwd", "inner_op::geodesic::inv"):
+        if not cx.f.has_fn(fn):
+            cx.ob("R-NONCONVERGENCE-FIRST", "%s/anchor" % fn, False, "anchor-missing: %s" % fn)
+            continue
+        f = cx.f.fn(fn)
+        for pt in pertuple.per_tuple_loops(f):
+            from rules.loops import classify_write
+            for wn, (bb, m) in enumerate(sorted(pt.writes)):
+                if classify_write(f, bb, m) == "nan":
+                    continue
+                n += 1
+                ok = False
+                for at, tv in guards.branch_facts(f, bb):
+                    at = mir.strip_refs(at)
+                    if at[0] == "bin" and at[1] in ("Gt", "Ge") and not tv and _fnum(mir.strip_refs(at[3])) is not None and \
+                            _fnum(mir.strip_refs(at[3])) >= 100:
+                        l = mir.strip_refs(at[2])
+                        if l[0] == "proj" and isinstance(l[2], tuple) and l[2][0] == "elem":
+                            ok = True
+                    if at[0] == "bin" and at[1] in ("Lt", "Le") and tv and _fnum(mir.strip_refs(at[3])) is not None and \
+                            _fnum(mir.strip_refs(at[3])) >= 100:
+                        ok = True
+                cx.ob("R-NONCONVERGENCE-FIRST", "%s/write%d" % (fn.rsplit("::", 2)[-2] + "::" + fn.rsplit("::", 1)[-1], wn), ok,
+                      "the value is written only where the iteration is known to have converged" if ok else
+                      "%s writes a result (and counts the tuple) without having looked at the non-convergence flag of the "
+                      "geodesic solution first: for nearly antipodal points a garbage azimuth and distance come out looking "
+                      "valid" % fn, cx.where(f.term(bb)["span"]))
+    cx.count("R-NONCONVERGENCE-FIRST", "value_writes", n)
+
+
+@rule("R-FULL-CIRCLE", ["C14", "C06"])
+def r_full_circle(cx):
+    """A direction turned round is `(azimuth + 180) mod 360`: where the geodesic operator adds 180 (degrees) to an azimuth
+    and reduces the sum, the modulus is the full circle."""
+    n = 0
+    for fn in sorted(cx.f.lib["fns"]):
+        if not fn.startswith("inner_op::geodesic::") or "tests" in fn:
+            continue
+        f = cx.f.fn(fn)
+        for bb, i, st in f.all_stmts():
+            if not (st["k"] == "assign" and st["rv"]["k"] == "bin" and st["rv"].get("op") == "Rem"):
+                continue
+            v = f.rvalue(st["rv"], (bb, i))
+            l, r = mir.strip_refs(v[2]), mir.strip_refs(v[3])
+            if not (l[0] == "bin" and l[1] in ("Add", "Sub") and _fnum(mir.strip_refs(l[3])) == 180 and _fnum(r) is not None):
+                continue
+            n += 1
+            cx.ob("R-FULL-CIRCLE", "%s/rem%d" % (fn.rsplit("::", 1)[-1], n - 1), _fnum(r) == 360,
+                  "the reversed azimuth is reduced modulo 360" if _fnum(r) == 360 else
+                  "%s reduces `azimuth + 180` modulo %s: for azimuths in the other half of the circle the reversed direction "
+                  "collapses onto the direction itself" % (fn, _fnum(r)), cx.where(st.get("span")))
+    cx.count("R-FULL-CIRCLE", "reductions", n)
